@@ -124,7 +124,7 @@ fn gen_iter_case(rng: &mut Rng, tier: Tier, kind: u8) -> Case {
         let class = if kind == 1 {
             [gen::KeyClass::Alpha, gen::KeyClass::Alpha, gen::KeyClass::Random, gen::KeyClass::Counter][rng.usize_below(4)]
         } else {
-            [gen::KeyClass::Alpha, gen::KeyClass::Counter, gen::KeyClass::Random, gen::KeyClass::Long][rng.usize_below(4)]
+            [gen::KeyClass::Alpha, gen::KeyClass::Counter, gen::KeyClass::Random, gen::KeyClass::Long, gen::KeyClass::Family][rng.usize_below(5)]
         };
         let ents = gen::gen_entries_with(rng, n, class, knobs.effective_block_size(), 128 * 1024);
         FileSpec { knobs, entries: Entries::Literal(ents) }
